@@ -715,6 +715,32 @@ func (u *Unit) typeSwitchStmt(st *State, x *ast.TypeSwitchStmt, c *Ctl, k func(*
 					s2.assume(app("=", v.T, "nil"))
 				}
 			}
+			// a case listing only concrete types is entered only by a non-nil value whose dynamic type is one of them
+			// (the converse - which earlier cases were NOT taken - is left open: cases stay a nondeterministic choice)
+			if v.K == vScalar && v.S == SRef && len(cl.List) > 0 {
+				var alts []string
+				for _, e := range cl.List {
+					tv, ok := info.Types[e]
+					if !ok || !tv.IsType() || types.IsInterface(tv.Type) {
+						alts = nil
+						break
+					}
+					alts = append(alts, app("=", app(u.dynTypeFn(), v.T), u.dynTypeID(tv.Type)))
+				}
+				if len(alts) > 0 {
+					s2.assume(and(not(app("=", v.T, "nil")), or(alts...)))
+				}
+			}
+			// the default case is entered only when no case matched: the value has none of the concrete types listed
+			if v.K == vScalar && v.S == SRef && cl.List == nil {
+				for _, oc := range x.Body.List {
+					for _, e := range oc.(*ast.CaseClause).List {
+						if tv, ok := info.Types[e]; ok && tv.IsType() && !types.IsInterface(tv.Type) {
+							s2.assume(or(app("=", v.T, "nil"), not(app("=", app(u.dynTypeFn(), v.T), u.dynTypeID(tv.Type)))))
+						}
+					}
+				}
+			}
 			u.block(s2, cl.Body, c, k)
 		}
 		hasDefault := false
